@@ -88,6 +88,7 @@ type Interp struct {
 	depth       int
 	unspec      bool
 	valueUnspec bool
+	loopRet     Val // value carried by a return statement out of a loop body
 	globals     *Env
 	frames      []*frame
 	Host        map[string]func(in *Interp, args []Val) (Val, *Raise)
@@ -301,7 +302,11 @@ func (in *Interp) stmt(s *lang.N, env *Env) (Val, ctl, *Raise) {
 	case lang.SSwitch:
 		return in.switchStmt(s, env)
 	case lang.SFor:
+		in.loopRet = nil
 		c, r := in.forStmt(s, env)
+		if c == cRet {
+			return in.loopRet, c, r
+		}
 		return nil, c, r
 	case lang.SDefer:
 		return nil, cNone, in.deferStmt(s, env)
@@ -360,7 +365,11 @@ func (in *Interp) forStmt(s *lang.N, env *Env) (ctl, *Raise) {
 	loopEnv := newEnv(env)
 	body := func() (stop bool, c ctl, r *Raise) {
 		in.tick()
-		_, c, r = in.child(s.Body, loopEnv)
+		var v Val
+		v, c, r = in.child(s.Body, loopEnv)
+		if c == cRet {
+			in.loopRet = v // the value of a return statement inside the loop body
+		}
 		if r != nil {
 			return true, cNone, r
 		}
